@@ -84,11 +84,25 @@ Judge12(c, ln) ==
 Verdicts(c, ln) ==
   (IF c.c03 THEN {Judge03(c, ln)} ELSE {}) \cup (IF c.c12 THEN {Judge12(c, ln)} ELSE {})
 
+\* ------------------------------------------------------------------ subdomains
+(* Map(default_subdomain = map.dsub); a rule's subdomain and the subdomain passed to bind() are either not given    *)
+(* (subk = "d": the map's default applies) or given explicitly (subk = "s", subv; an explicitly empty subdomain is   *)
+(* NOT replaced by the default).  A rule is only considered on the subdomain the adapter is bound to: the others are *)
+(* replaced (index preserving) by a rule no path can match.  The bound host is [subdomain "."] server_name.          *)
+DeadSeg == [TrailSeg EXCEPT !.pre = <<SLASH>>]
+EffBindSub(c) == IF c.bind.subk = "d" THEN c.map.dsub ELSE c.bind.subv
+EffRuleSub(c, r) == IF r.subk = "d" THEN c.map.dsub ELSE r.subv
+Resolve(c) ==
+  [c EXCEPT !.bind = [@ EXCEPT !.sub = EffBindSub(c)],
+            !.rules = [i \in 1..Len(c.rules) |->
+                         IF EffRuleSub(c, c.rules[i]) = EffBindSub(c) THEN c.rules[i]
+                         ELSE [c.rules[i] EXCEPT !.segs = <<DeadSeg>>, !.branch = FALSE]]]
+
 Init == l = 1 /\ cfg = [op |-> "none"]
 
 Next == /\ l <= Len(Lines)
         /\ LET line == Lines[l] IN
-           IF line.op = "cfg" THEN cfg' = line
+           IF line.op = "cfg" THEN cfg' = Resolve(line)
            ELSE /\ cfg' = cfg
                 /\ \A v \in Verdicts(cfg, line) :
                      IF v = "ok" THEN TRUE
